@@ -47,6 +47,10 @@ def r1(ctx):
                                                      'max_by', 'min_by', 'max_by_key', 'min_by_key', 'last', 'rev',
                                                      'binary_search_by', 'partition_point', 'skip_while', 'take_while',
                                                      'any', 'all')]
+    if not finds and b.loops():
+        n += loop_form_validate(ctx, R, b, eb)
+        ctx.floor(R, n, 4)
+        return
     n += 1
     ok = len(finds) == 1 and finds[0].name == 'find'
     ctx.check(ok, R, b, 'lookup:first-match-in-stored-order', [c.name for c in finds],
@@ -105,12 +109,70 @@ def r1(ctx):
     ctx.floor(R, n, 5)
 
 
+def loop_form_validate(ctx, R, b, eb):
+    """validate() written as an explicit forward loop with an early return on the first applicable constraint"""
+    n = 0
+    nx = [c for c in b.find_calls('std::iter::Iterator::next') if b.in_loop(c.bb)]
+    n += 1
+    fwd = len(nx) == 1 and eb.arg(nx[0], 0).has_place(root=('param', 1), field='constraints') and not any(
+        eb.arg(nx[0], 0).has_call(x) for x in ('rev', 'sorted', 'sorted_by', 'skip', 'step_by'))
+    ctx.check(fwd, R, b, 'lookup:first-match-in-stored-order', 'forward loop over self.constraints',
+              'the applicable constraint is not searched by one forward pass over self.constraints')
+    if not fwd:
+        return n
+    n += 1
+    ctx.ok(R, b, 'lookup:over-self.constraints', 'forward loop')
+    none_true = False
+    for bb, knd, payload in result_assignments(b):
+        conds = path_conditions(b, bb)
+        in_loop = bool(b.in_loop(bb))
+        exhausted = any(c.kind == 'discr' and c.variants == {'None'} and c.expr.has_call('next') for c in conds)
+        if exhausted and not any(c.kind == 'discr' and c.variants == {'Some'} and c.expr.has_call('next') for c in conds):
+            n += 1
+            none_true = knd == 'const' and payload is True
+            ctx.check(none_true, R, b, 'no-constraint=>admitted', '', 'without an applicable constraint the pair is not '
+                      'admitted (%s %r): constraints would add rejections of their own' % (knd, payload))
+            continue
+        # a result produced inside the loop: the element is applicable (gap >= epoch gap) and the answer is dist <= limit
+        gap_ok = False
+        for c in conds:
+            cm = c.cmp()
+            if not cm:
+                continue
+            o = orient(cm, lambda e: e.strip().kind == 'place' and e.strip().root == ('param', 2))
+            if o and o[2].has_call('next') and '0' in repr(o[2])[-3:]:
+                # epoch_gap OP elem.0  ->  elem.0 flipped
+                from mir import FLIP
+                gap_ok = gap_ok or FLIP.get(o[0], o[0]) == 'Ge'
+        n += 1
+        ctx.check(gap_ok, R, b, 'lookup:gap>=epoch_delta', str([str(c) for c in conds])[:120],
+                  'a constraint is taken as applicable without `configured gap >= epoch gap` (%s)' % [str(c) for c in conds])
+        n += 1
+        if knd == 'expr':
+            cm = as_cmp(payload, True)
+            o = orient(cm, lambda e: e.strip().kind == 'place' and e.strip().root == ('param', 3)) if cm else None
+            ok = o is not None and o[0] == 'Le' and o[2].has_call('next') and '1' in repr(o[2])[-3:]
+            ctx.check(ok, R, b, 'admitted-iff-dist<=limit', '%s' % (('%r %s %r' % (o[1], o[0], o[2])) if o else cm),
+                      'with an applicable constraint the pair is admitted when `%s` (expected `dist <= configured '
+                      'limit` of the selected constraint)' % (('%r %s %r' % (cm[1], cm[0], cm[2])) if cm else payload))
+        else:
+            ctx.fail(R, b, 'admitted-iff-dist<=limit', 'with an applicable constraint validate returns the constant %r' % payload)
+    return n
+
+
 def r2(ctx):
     R = 'R20.2'
     ctx.rule(R, 'add_constraints: stable ascending sort by gap, then dedup by gap, after the last push')
     b = ctx.anchor(R, STC + '::add_constraints')
     if b is None:
         return
+    n = writer_clauses(ctx, R, b, '')
+    ctx.floor(R, n, 6)
+
+
+def writer_clauses(ctx, R, b, tag):
+    """the clauses that make a function a CONFORMING writer of the constraint table: everything it pushes ends up in a
+    table that is stably sorted ascending by gap and de-duplicated first-wins"""
     F = ctx.F
     eb = ExprBuilder(b)
     n = 0
@@ -124,34 +186,34 @@ def r2(ctx):
     pushes = [_Site(bb) for bb, c, owner in effective_sites(F, b, 'std::vec::Vec::push', 'std::vec::Vec::extend',
                                                             'extend_from_slice', 'append', 'std::vec::Vec::insert')]
     n += 1
-    ctx.check(len(sorts) == 1 and sorts[0].name in STABLE_SORTS, R, b, 'sort:stable', [c.name for c in sorts],
+    ctx.check(len(sorts) == 1 and sorts[0].name in STABLE_SORTS, R, b, tag + 'sort:stable', [c.name for c in sorts],
               'the constraint table is sorted with %s (expected one stable sort: with an unstable sort a gap '
               'configured twice no longer keeps its first limit)' % [c.name for c in sorts])
     for c in sorts:
         d, f = V.sort_semantics(F, b, c)
         n += 1
-        ctx.check(d == 'asc' and f == '0', R, b, 'sort:ascending-by-gap', '%s on .%s' % (d, f),
+        ctx.check(d == 'asc' and f == '0', R, b, tag + 'sort:ascending-by-gap', '%s on .%s' % (d, f),
                   'the table is sorted %s on field .%s (expected ascending by gap: `find` must meet the smallest '
                   'applicable gap first)' % (d, f), c.ln)
         recv = eb.arg(c, 0)
         n += 1
-        ctx.check(recv.has_place(root=('param', 1), field='constraints'), R, b, 'sort:self.constraints', '',
+        ctx.check(recv.has_place(root=('param', 1), field='constraints'), R, b, tag + 'sort:self.constraints', '',
                   'the sort is not applied to self.constraints')
         for p in pushes:
             n += 1
             inloop = b.in_loop(p.bb)
             ok = c.bb in b.reach_from(p.bb) and not (set(inloop) & set(b.in_loop(c.bb))) or not inloop and \
                 b.dominates(p.bb, c.bb)
-            ctx.check(ok, R, b, 'sort:after-last-push', '', 'the sort does not run after all constraints were pushed')
+            ctx.check(ok, R, b, tag + 'sort:after-last-push', '', 'the sort does not run after all constraints were pushed')
     n += 1
-    ctx.check(len(dedups) == 1 and bool(sorts) and b.dominates(sorts[0].bb, dedups[0].bb), R, b, 'dedup:after-sort',
+    ctx.check(len(dedups) == 1 and bool(sorts) and b.dominates(sorts[0].bb, dedups[0].bb), R, b, tag + 'dedup:after-sort',
               [c.name for c in dedups], 'duplicates of a gap are not removed after the sort (%s)' % [c.name for c in dedups])
     for c in dedups:
         k = V.dedup_key(F, b, c)
         n += 1
-        ctx.check(k == '0', R, b, 'dedup:by-gap', 'duplicates identified by field .%s' % k,
+        ctx.check(k == '0', R, b, tag + 'dedup:by-gap', 'duplicates identified by field .%s' % k,
                   'duplicates are identified by field .%s instead of equal gaps' % k, c.ln)
-    ctx.floor(R, n, 6)
+    return n
 
 
 def r4(ctx, R='R20.4', names=('dist_in_2r', 'too_far')):
@@ -226,15 +288,29 @@ def r6(ctx):
                 changed = True
     n = 0
     seen_owner = False
+    conforming_writers = set()
     for b, sites in sorted(muts.items(), key=lambda kv: kv[0].npath):
         r = root_fn(b)
         n += 1
         seen_owner = seen_owner or r == owner.npath
         ctx.read(b)
-        ctx.check(r in allowed, R, b, 'writer:' + r.rsplit('::', 1)[-1], '%d write site(s)' % len(sites),
-                  '%s changes SpatioTemporalConstraints::constraints directly (%s at %s) instead of going through '
-                  'add_constraints: the table can lose its order, its first-wins rule or entries' % (
-                      r, sites[0][0], sites[0][1]), sites[0][1])
+        if r in allowed:
+            ctx.ok(R, b, 'writer:' + r.rsplit('::', 1)[-1], '%d write site(s)' % len(sites), sites[0][1])
+            continue
+        # another writer is acceptable only if it is a complete, conforming writer itself (same validate / sort /
+        # dedup procedure, e.g. through a helper shared with add_constraints)
+        wb = F.one(r)
+        before = len(ctx.findings)
+        if wb is not None:
+            writer_clauses(ctx, R, wb, 'writer:%s:' % r.rsplit('::', 1)[-1])
+        conforming = wb is not None and len(ctx.findings) == before and bool(
+            [c for c in wb.find_calls() if c.name in STABLE_SORTS and 'slice' in c.callee])
+        ctx.check(conforming, R, b, 'writer:' + r.rsplit('::', 1)[-1], '%d write site(s)' % len(sites),
+                  '%s changes SpatioTemporalConstraints::constraints directly (%s at %s) without performing the '
+                  'complete procedure of add_constraints (stable sort by gap, first-wins de-duplication): the table '
+                  'can lose its order, its first-wins rule or entries' % (r, sites[0][0], sites[0][1]), sites[0][1])
+        if conforming:
+            conforming_writers.add(r)
     ctx.check(seen_owner, R, owner, 'add_constraints-writes-the-table', '', 'add_constraints no longer writes the table')
     # the builder form goes through add_constraints with all of its input
     bb = ctx.anchor(R, STC + '::constraints')
@@ -242,7 +318,7 @@ def r6(ctx):
         eb = ExprBuilder(bb)
         cs = bb.find_calls(STC + '::add_constraints')
         n += 1
-        ok = len(cs) == 1 and eb.arg(cs[0], 1).has_place(root=('param', 2))
+        ok = (len(cs) == 1 and eb.arg(cs[0], 1).has_place(root=('param', 2))) or bb.npath in conforming_writers
         ctx.check(ok, R, bb, 'builder-delegates-to-add_constraints', repr(eb.arg(cs[0], 1))[:80] if cs else '',
                   'the builder `constraints()` does not hand its whole input to add_constraints')
     ctx.floor(R, n + 1, 3)
